@@ -28,6 +28,8 @@ BATCHES = {
     "Bbatch": ((), (2,), (), ()),
     "bcast": ((2,), (1,), (2,), ()),
     "Ebatch": ((), (), (2,), ()),
+    "Mbatch": ((), (), (), (2,)),          # only M is batched (more batch dimensions than A, B and E)
+    "Mbatch1": ((), (), (), (1,)),
     "A22": ((2, 2), (), (), ()),           # two non-trivial batch dimensions
     "B22": ((), (2, 2), (), ()),
 }
@@ -120,7 +122,12 @@ def krylov(cx, method="cg", n=2, ncols=1, withE=False, withM=False, posdef=True,
     B = cx.sym("b", bb + (n, ncols))
     E = cx.sym("e", be + (ncols,)) if withE else None
     M = Mop = None
-    if withM:
+    if withM and opkind == "scalar":
+        # M = m*I per batch element: A - e_j M stays a multiple of the identity, one iteration converges for every shift
+        mm_ = cx.sym("m", bm + (1,), positive=True, lo=0.5, hi=2)
+        M = torch.diag_embed(mm_.expand(*bm, n))
+        Mop = LinearOperator.m(M, is_hermitian=True)
+    elif withM:
         M, _ = _mk_M(cx, n, bm, False)
         Mop = LinearOperator.m(M, is_hermitian=True)
     opts = dict(max_niter=max_niter, rtol=rtol, atol=atol)
@@ -218,6 +225,13 @@ def configs(tier):
             opts={"hunt_always": True})
     # batched shifts with several columns (layout of E in the set-up shared by the Krylov methods; gmres with E and 2 columns is
     # the known finding, bicgstab is in the thorough tier)
+    # E and M with M alone batched (batch size == / != number of columns, and a size-1 batch)
+    add("krylov/cg/scalar/posdef/AEM/Mbatch/c2/it1", krylov, method="cg", n=2, ncols=2, posdef=True, max_niter=1,
+        opkind="scalar", withE=True, withM=True, batch="Mbatch")
+    add("krylov/cg/scalar/posdef/AEM/Mbatch/c1/it1", krylov, method="cg", n=2, ncols=1, posdef=True, max_niter=1,
+        opkind="scalar", withE=True, withM=True, batch="Mbatch")
+    add("krylov/cg/scalar/posdef/AEM/Mbatch1/c2/it1", krylov, method="cg", n=2, ncols=2, posdef=True, max_niter=1,
+        opkind="scalar", withE=True, withM=True, batch="Mbatch1")
     add("krylov/cg/scalar/posdef/AE/Ebatch/c2/it1", krylov, method="cg", n=2, ncols=2, posdef=True, max_niter=1,
         opkind="scalar", withE=True, batch="Ebatch")
     if tier == "thorough":
